@@ -260,6 +260,15 @@ func (ctx *Context) fixStackMerge(pos []int) {
 			in = slices.Delete(in, idx, idx+1)
 		}
 
+		// Merged glyphs behind the last input position (glyphs this rule's
+		// lookup ignores) were not seen by the loop above, but they still
+		// shorten the sequence before EndPos.
+		for ; i < len(pos); i++ {
+			if i > 0 && pos[i] < action.EndPos {
+				delta++
+			}
+		}
+
 		action.InputPos = in
 		action.EndPos -= delta
 	}
